@@ -120,3 +120,15 @@ pub fn run_one<T: Send + 'static>(f: impl FnOnce() -> T + Send + 'static) -> Opt
     });
     rx.recv_timeout(hang_budget()).ok()
 }
+
+/// Failures that did not reproduce on re-execution. They are never verdicts: if the run ends
+/// without a confirmed (reproduced) violation they make it a machinery error (exit 2); next to a
+/// confirmed violation they are only listed.
+static FLAKY: Mutex<Vec<String>> = Mutex::new(Vec::new());
+pub fn note_flaky(msg: String) {
+    println!("NOTE: non-reproducing failure: {msg}");
+    FLAKY.lock().unwrap().push(msg);
+}
+pub fn flaky() -> Vec<String> {
+    FLAKY.lock().unwrap().clone()
+}
